@@ -152,15 +152,17 @@ open Sqlair.Cache in
 def handleL5c (j : Json) : Except String Json := do
   let oj ← j.getObjVal? "obs"
   let execs : List ExecObs := parseExecs oj
-  let c09 := holdsC09 execs
+  -- transaction half: nothing a transaction issued ran on another connection
+  let txOk := gn oj "txStray" == 0
+  let c09 := holdsC09 execs && txOk
   let c10 := holdsC10 execs (gn oj "closedErrs")
   -- everything was dropped and collected: nothing may be left open or cached
   let c11 := execs.all (fun e => !e.closedBefore) && gn oj "closedErrs" == 0 &&
     holdsC11 (gn oj "doubleClose") (gn oj "openStmts") (gn oj "cacheLeft") 4 true (gn oj "cacheLeft")
-  let why := (if c09 then "" else "an execution used a statement prepared for another SQL or DB; ") ++
+  let why := (if c09 then "" else "an execution used a statement prepared for another SQL or DB, or a transaction's statement ran outside its connection; ") ++
     (if c10 then "" else "a closed statement was executed; ") ++
     (if c11 then "" else s!"a statement was closed while a user still held it, or after dropping everything: open driver statements {gn oj "openStmts"}, cache entries {gn oj "cacheLeft"}, double closes {gn oj "doubleClose"}")
-  pure (Json.mkObj [("c09", Json.bool c09), ("c10", Json.bool c10), ("c11", Json.bool c11), ("why", Json.str why),
+  pure (Json.mkObj [("c09", Json.bool c09), ("c10", Json.bool c10), ("c11", Json.bool c11), ("c12", Json.bool txOk), ("why", Json.str why),
     ("execs", (execs.length : Json))])
 
 def handleRt (j : Json) : Except String Json := do
